@@ -445,6 +445,18 @@ func (fc *FnCtx) evalCall(x *ECall, env *Env) Val {
 			fc.fail("sliceoff of kind %d", v.K)
 		}
 		return intVal(v.C[1])
+	case "same":
+		// same(x, y): identical values (component-wise), e.g. the very same string, not just equal contents
+		a := fc.evalExpr(x.Args[0], env)
+		b := fc.evalExpr(x.Args[1], env)
+		if len(a.C) != len(b.C) {
+			fc.fail("same: different shapes")
+		}
+		var parts []string
+		for i := range a.C {
+			parts = append(parts, fmt.Sprintf("(= %s %s)", a.C[i], b.C[i]))
+		}
+		return boolVal(and(parts...))
 	case "issub":
 		// issub(x, s): string x is physically a substring of s
 		x1 := fc.evalExpr(x.Args[0], env)
